@@ -127,7 +127,8 @@ class C15(object):
     assumptions = ['slack %g: a mode of modulus <= 2 may grow one step past the acceptance test' % SLACK,
                    'inner solves are exact (recursive blocks), so inner tolerance cannot blur the verdict']
     required_counters = ('accepted.judged', 'accepted.negative_valued', 'rejected.judged', 'untouched.judged',
-                         'via_solve_equation', 'inner_loop_tight_tolerance.cases', 'near_cancelling_derived.cases', 'acceptance_window.cases',
+                         'via_solve_equation', 'inner_loop_tight_tolerance.cases', 'near_cancelling_derived.cases', 'acceptance_window.cases', 'solver_reused_after_search_of_variant.cases',
+                         'another_solvers_exclusion_list_extended_in_place.cases',
                          'coarse_per_period_tolerance.cases')
 
     def n_cases(self, tier):
@@ -167,15 +168,38 @@ class C15(object):
         if d.get('loop'):
             T = min(T, 100)      # tight per-period solves of a loop with gain 0.9 are slow
         loop_default = bool(d.get('loop')) and rng.random() < 0.3
+        earlier = None
+        if idx % 12 in (2, 8):
+            dv = copy.deepcopy(d)
+            dv['rows'] = [[n_, c_, k_ * 0.5 + 3.0] for n_, c_, k_ in dv['rows']]
+            dv['near_cancel'] = None
+            earlier = render(dv)
         return {'kind': 'search', 'dyn': d, 'text': render(d), 'T': T, 'loop_default_tolerance': loop_default,
+                'earlier_variant': earlier, 'other_solver_excludes': idx % 12 in (3, 9),
                 'coarse_step_tolerance': (not d.get('loop')) and rng.random() < 0.3,
                 'tol': 10 ** rng.uniform(-8, -2), 'reduction': rng.random() < 0.5, 'via_solve': via_solve}
 
     def run_case(self, case):
         from sfc_models.equation_solver import EquationSolver, NoEquilibriumError
         rec = monitors.Recorder()
+        if case.get('other_solver_excludes'):
+            # another solver in the process extends ITS list of variables excluded from the steady-state test in place
+            o = EquationSolver('x0 = 0.5*LAG_x0 + 1\nLAG_x0 = x0(k-1)\nMaxTime = 2')
+            o.ParameterInitialSteadyStateExcludedVariables += list(case['dyn']['names']) + ['total', 'neg', 'bal']
+            rec.count('another_solvers_exclusion_list_extended_in_place.cases')
         s = EquationSolver(run_equation_reduction=case['reduction'])
         with contextlib.redirect_stdout(io.StringIO()):
+            if case.get('earlier_variant'):
+                # the same solver object first searched a VARIANT of the system (same names, other constants)
+                try:
+                    s.ParseString(case['earlier_variant'])
+                    s.ExtractVariableList()
+                    s.SetInitialConditions()
+                    s.ParameterInitialSteadyStateMaxTime = 30
+                    s.CalculateInitialSteadyState()
+                except Exception:
+                    pass
+                rec.count('solver_reused_after_search_of_variant.cases')
             s.ParseString(case['text'])
             s.ExtractVariableList()
             s.SetInitialConditions()
@@ -236,7 +260,8 @@ class C15(object):
         if outcome.startswith('OTHER'):
             rec.violate('unexpected_exception_type', {'outcome': outcome, 'text': case['text']})
             return {'verdict': 'violated', 'shape': shape, 'counters': rec.counters, 'violations': rec.violations}
-        excluded = set(['k'] + list(s.ParameterInitialSteadyStateExcludedVariables))
+        # what THIS case configured (it never touches the list): the documented default
+        excluded = set(['k', 't'])
         nontrivial = False
         obs = {'outcome': outcome, 'T': case['T'], 'tol': case['tol'], 'kinds': case['dyn']['kinds']}
         if outcome == 'accepted':
